@@ -168,8 +168,14 @@ func c03Exchange(interleavedMode bool) {
 	cl := &IPClient{Log: slog.New(slog.DiscardHandler), InterleavedMode: interleavedMode}
 	remote := c03addr("remote")
 	if v.Native() {
-		c03Native(cl, remote)
-		return
+		// values the counterexample leaves open (the query did not depend on them) default to zero: pick a
+		// usable loopback address and port instead
+		if remote.Addr() == netip.AddrFrom4([4]byte{}) {
+			remote = netip.AddrPortFrom(netip.AddrFrom4([4]byte{127, 0, 0, 2}), remote.Port())
+		}
+		if remote.Port() == 0 {
+			remote = netip.AddrPortFrom(remote.Addr(), 34567)
+		}
 	}
 	rip := remote.Addr().As4()
 	remoteUDP := &net.UDPAddr{IP: net.IP(rip[:]), Port: int(remote.Port())}
@@ -186,6 +192,18 @@ func c03Exchange(interleavedMode bool) {
 	prevRx := c03next("prev.crx") // the previous exchange: response received after the request was sent, before this exchange
 	cl.prev.cTxTime, cl.prev.cRxTime = ntp.Time64FromTime(prevTx), ntp.Time64FromTime(prevRx)
 	cl.prev.sRxTime = ntp.Time64{Seconds: v.Uint32("prev.srx.s"), Fraction: v.Uint32("prev.srx.f")}
+	if v.Native() {
+		// the same earlier-exchange state, moved from the counterexample's clock to the wall clock
+		c03delta = time.Since(v.TimeNs(v.RawInt("clk.now", 0)))
+		cl.prev.cTxTime, cl.prev.cRxTime = ntp.Time64FromTime(prevTx.Add(c03delta)), ntp.Time64FromTime(prevRx.Add(c03delta))
+		cl.prev.sRxTime = c03shift(cl.prev.sRxTime)
+		if ob := v.Obligation(); !(len(ob) >= 3 && ob[:3] == "C05") && ob != "C03.client.state-records-this-exchange" {
+			// the offset-accuracy replay runs a fresh client against the conformant responder
+			cl.prev = IPClient{}.prev
+		}
+		c03Native(cl, remote)
+		return
+	}
 	prev := cl.prev
 
 	ctx, cancel := context.WithTimeout(context.Background(), time.Second)
@@ -285,6 +303,18 @@ func VerifC03Formula() {
 
 const c03theta = 2500 * time.Millisecond
 
+// wall clock minus the counterexample's clock (native replay)
+var c03delta time.Duration
+
+// a server-side stamp of the counterexample, moved to the wall clock (zero stays zero)
+func c03shift(t ntp.Time64) ntp.Time64 {
+	if t == (ntp.Time64{}) {
+		return t
+	}
+	ref := v.TimeNs(v.RawInt("clk.now", 0))
+	return ntp.Time64FromTime(ntp.TimeFromTime64(t, ref).Add(c03delta))
+}
+
 func c03acceptable(b []byte, fromServer bool, req *ntp.Packet) bool {
 	var p ntp.Packet
 	if !fromServer || ntp.DecodePacket(&p, b) != nil {
@@ -313,6 +343,10 @@ func c03Native(cl *IPClient, remote netip.AddrPort) {
 	anyAcceptable := false
 	// the request of the symbolic run carried the stamp of the counterexample's first clock reading
 	cexTx := ntp.Time64FromTime(v.TimeNs(v.Int64("clk.now")))
+	// (an interleaved request of the symbolic run carried the previous exchange's receive stamp)
+	cexPrevRx := ntp.Time64FromTime(v.TimeNs(v.RawInt("prev.crx", 0)))
+	var lastResp ntp.Packet
+	nreq := 0
 	var prevRx, prevTx ntp.Time64
 	go func() {
 		buf := make([]byte, 2048)
@@ -333,9 +367,15 @@ func c03Native(cl *IPClient, remote netip.AddrPort) {
 					d := &c03.dg[i]
 					out := append([]byte(nil), d.data[:d.n]...)
 					var dp ntp.Packet
-					if ntp.DecodePacket(&dp, out) == nil && dp.OriginTime == cexTx {
-						// rename the echoed stamp to the one the real request carries
-						dp.OriginTime = req.TransmitTime
+					if ntp.DecodePacket(&dp, out) == nil {
+						// rename the echoed stamp to the one the real request carries and move the
+						// server's stamps from the counterexample's clock to the wall clock
+						if dp.OriginTime == cexTx {
+							dp.OriginTime = req.TransmitTime
+						} else if dp.OriginTime == cexPrevRx && cexPrevRx != (ntp.Time64{}) {
+							dp.OriginTime = req.ReceiveTime
+						}
+						dp.ReceiveTime, dp.TransmitTime = c03shift(dp.ReceiveTime), c03shift(dp.TransmitTime)
 						hdr := out[:0:0]
 						ntp.EncodePacket(&hdr, &dp)
 						copy(out, hdr)
@@ -363,7 +403,13 @@ func c03Native(cl *IPClient, remote netip.AddrPort) {
 				}
 				continue
 			}
-			// conformant server, basic and interleaved mode
+			// conformant server, basic and interleaved mode; its reply to the second request is lost on
+			// the way (and, as in core/server, the record that reply was served from is gone afterwards)
+			nreq++
+			if nreq == 2 {
+				prevRx, prevTx = ntp.Time64{}, ntp.Time64{}
+				continue
+			}
 			var resp ntp.Packet
 			resp.SetVersion(4)
 			resp.SetMode(ntp.ModeServer)
@@ -378,6 +424,7 @@ func c03Native(cl *IPClient, remote netip.AddrPort) {
 			}
 			var out []byte
 			ntp.EncodePacket(&out, &resp)
+			lastResp = resp
 			tx := time.Now().Add(c03theta)
 			srv.WriteToUDP(out, from)
 			prevRx, prevTx = resp.ReceiveTime, ntp.Time64FromTime(tx)
@@ -391,13 +438,20 @@ func c03Native(cl *IPClient, remote netip.AddrPort) {
 	}
 	for r := 0; r < rounds; r++ {
 		ctx, cancel := context.WithTimeout(context.Background(), 500*time.Millisecond)
+		before := cl.prev
 		_, off, err := cl.measureClockOffsetIP(ctx, ipMetrics.Load(), local, remoteUDP)
 		cancel()
 		if attack {
 			if err == nil {
 				_ = lastReq
 				v.Assert(anyAcceptable, v.Obligation())
+			} else if println("native: exchange error:", err.Error()); v.Obligation() == "C05.reject.state-unchanged-on-error" {
+				v.Assert(cl.prev == before, v.Obligation())
 			}
+		} else if r == 1 {
+			// the reply of this round was dropped on purpose: the exchange times out
+		} else if err == nil && v.Obligation() == "C03.client.state-records-this-exchange" {
+			v.Assert(!cl.InterleavedMode || cl.prev.sRxTime == lastResp.ReceiveTime, v.Obligation())
 		} else if err == nil {
 			d := off - c03theta
 			if d < 0 {
@@ -406,6 +460,11 @@ func c03Native(cl *IPClient, remote netip.AddrPort) {
 			// loopback round trips are far below 20 ms
 			v.Assert(d <= 20*time.Millisecond, v.Obligation())
 		} else {
+			// a failure to send at all says something about the replay environment, not about the client
+			var oe *net.OpError
+			if errors.As(err, &oe) && oe.Op != "read" {
+				panic(v.AssumeViolated{Where: "native exchange could not be run: " + err.Error()})
+			}
 			v.Assert(false, v.Obligation())
 		}
 		time.Sleep(10 * time.Millisecond)
